@@ -713,6 +713,20 @@ func (v *FnVC) execBinOp(in *ssa.BinOp, st *State) Val {
 		}
 		return Val{T: v.define("shr", EDiv(x.T, p)), Typ: typ}
 	case token.AND, token.OR, token.XOR, token.AND_NOT:
+		if in.Op == token.OR || in.Op == token.XOR {
+			// (a << k) | b with b narrower than k bits is a + b exactly
+			if sh, ok := in.X.(*ssa.BinOp); ok && sh.Op == token.SHL {
+				if kc, ok := sh.Y.(*ssa.Const); ok && kc.Value != nil {
+					if k, ok := new(big.Int).SetString(kc.Value.ExactString(), 10); ok {
+						if cv, ok := in.Y.(*ssa.Convert); ok {
+							if fi, ok := basicInt(cv.X.Type()); ok && !fi.signed && int64(fi.bits) <= k.Int64() {
+								return Val{T: v.define("shlor", Add(x.T, y.T)), Typ: typ}
+							}
+						}
+					}
+				}
+			}
+		}
 		return Val{T: v.bitop(in.Op, x.T, y.T, ii, in.Pos()), Typ: typ}
 	}
 	unsupported("binary op %s", in.Op)
